@@ -14,6 +14,7 @@ Checks (from the statement; modular so that one defect shows under one key):
 from __future__ import annotations
 
 import itertools
+import time
 
 import numpy as np
 
@@ -271,12 +272,20 @@ def run(tier="quick", seed=0, repo="/repo"):
         _enumerate(rec, tier, seed, bound)
     except O.Abort:
         bound["text"] = bound.get("text", "") + " [enumeration stopped early: calls into the real code did not terminate]"
-    return rec.result(RULE, bound.get("text", "stopped before the bound was fixed"), exhaustive=False)
+    return rec.result(RULE, bound.get("text", "stopped before the bound was fixed"), exhaustive=False, section_seconds=bound.get("timing", {}))
 
 
 def _enumerate(rec, tier, seed, bound_out):
     rng = np.random.default_rng(seed)
     quick = tier == "quick"
+    t0 = [time.time(), None]
+    timing = bound_out.setdefault("timing", {})
+
+    def tick(label):
+        now = time.time()
+        if t0[1] is not None:
+            timing[t0[1]] = round(timing.get(t0[1], 0.0) + now - t0[0], 1)
+        t0[0], t0[1] = now, label
     n_where = 10 if quick else 15
     n_peaks = 6 if quick else 8
     bs = [1, 2, 3, 4] if quick else [1, 2, 3, 4, 5, 6]
@@ -285,12 +294,14 @@ def _enumerate(rec, tier, seed, bound_out):
     bound_out["text"] = (f"where: all boolean arrays of length <= {n_where}; peaks: {{0,1,2,3}}^n for n <= {n_peaks} + random; transform: bandwidth in {bs}, "
                          f"2b <= n <= {n_max}, p <= 2; detector: bandwidth in {bs_d}, n in 2b..2b+8, every admitted min_detection_interval")
 
+    tick("1")
     # (1) where: all boolean arrays
     for n in range(0, n_where + 1):
         for bits in itertools.product((False, True), repeat=n):
             inp = {"check": "where", "indicator": list(bits)}
             rec.case(("where", bits), check_where(rec, inp), inp if bits == (False, True, True, False, True) else None)
 
+    tick("2")
     # (2) peaks: all arrays over {0,1,2,3}^n
     for n in range(1, n_peaks + 1):
         for arr in itertools.product((0.0, 1.0, 2.0, 3.0), repeat=n):
@@ -307,6 +318,7 @@ def _enumerate(rec, tier, seed, bound_out):
             inp = {"check": "peaks", "scores": arr, "threshold": th, "min_detection_interval": mdi}
             rec.case(("peaksr", it, th, mdi), check_peaks(rec, inp), None)
 
+    tick("3")
     # (3) transform kernel
     for b in bs:
         for n in range(2 * b, n_max + 1):
@@ -323,6 +335,7 @@ def _enumerate(rec, tier, seed, bound_out):
                     inp = {"check": "transform", "scorer": {"kind": "builtin", "name": name}, "X": X, "b": b}
                     rec.case(("tr", name, n, p, b), check_transform(rec, inp), None)
 
+    tick("4")
     # (4) detector class (+ reversal)
     for b in bs_d:
         mdis = admissible_mdi(b)
@@ -355,6 +368,7 @@ def _enumerate(rec, tier, seed, bound_out):
                             if spec["kind"] == "builtin" and "Xfit" not in d:
                                 r = dict(d, check="reversal")
                                 rec.case(("rev", str(spec), n, p, b, mdi, d["threshold_scale"], d.get("level")), check_reversal(rec, r), None)
+    tick("end")
 
 
 def replay(inp, repo="/repo"):
